@@ -271,7 +271,7 @@ func R19(p *core.Prog) *core.Result {
 			want["htmlEscapeSet"][c] = true
 		}
 		for _, name := range []string{"jsonEscapeSet", "htmlEscapeSet"} {
-			g, _ := sp.Members[name].(*ssa.Global)
+			g := p.Global("json", name)
 			if g == nil {
 				r.Undecided(".ESCAPE-TABLE", "json."+name, "table "+name+" not found")
 				continue
